@@ -25,6 +25,7 @@ type flJob struct {
 		Seed    int64 `json:"seed"`
 		MaxOps  int   `json:"maxops"`
 		Traces  int   `json:"traces"` // how many runs to log as NDJSON traces
+		Links   bool  `json:"links"`  // message-chain operations (link, recycle chain) in the random programs
 		NSlots  []int `json:"nslots"`
 		Threads []int `json:"threads"`
 	} `json:"random"`
@@ -73,7 +74,9 @@ type flThread struct {
 	th    *vsThread
 	next  func()
 	list  *bufferList
+	bm    *bufferManager
 	stale bool
+	chain bool // a chain walk (recycleBuffers) is in progress
 	// result of the last op
 	lastSlice *bufferSlice
 	lastErr   error
@@ -83,6 +86,9 @@ type flThread struct {
 type flWorld struct {
 	n, capPer int
 	mem       []byte
+	bms       [2]*bufferManager
+	msgLink   map[int]bool
+	mlink     map[int]int // ghost: message links made by holders (a -> b)
 	views     [2]*bufferList
 	threads   []*flThread
 	holder    map[int]int           // slot -> thread
@@ -97,19 +103,26 @@ type flWorld struct {
 func flNewWorld(n, nthreads, capPer int, knownABA bool) *flWorld {
 	w := &flWorld{n: n, capPer: capPer, holder: map[int]int{}, slices: map[int]*bufferSlice{}, snap: map[int][]byte{},
 		knownABA: knownABA, labels: map[string]bool{}}
-	w.mem = make([]byte, int(countBufferListMemSize(uint32(n), uint32(capPer))))
-	l, err := createFreeBufferList(uint32(n), uint32(capPer), w.mem, 0)
+	// one size class laid out by the library's own createBufferManager; a second mapping view for the odd threads
+	w.mem = make([]byte, bufferManagerHeaderSize+int(countBufferListMemSize(uint32(n), uint32(capPer))))
+	bm, err := createBufferManager([]*SizePercentPair{{Size: uint32(capPer), Percent: 100}}, "", w.mem, 0)
 	if err != nil {
 		panic(err)
 	}
-	l2, err := mappingFreeBufferList(w.mem, 0)
+	bm2, err := mappingBufferManager("", w.mem, 0)
 	if err != nil {
 		panic(err)
 	}
-	w.views = [2]*bufferList{l, l2}
+	if int(*bm.lists[0].cap) != n {
+		panic(fmt.Sprintf("layout gives %d slots, want %d", *bm.lists[0].cap, n))
+	}
+	w.bms = [2]*bufferManager{bm, bm2}
+	w.views = [2]*bufferList{bm.lists[0], bm2.lists[0]}
+	w.msgLink = map[int]bool{}
+	w.mlink = map[int]int{}
 	vsReset(vsSched)
 	for i := 0; i < nthreads; i++ {
-		ft := &flThread{list: w.views[i%2]}
+		ft := &flThread{list: w.views[i%2], bm: w.bms[i%2]}
 		ft.th = vsSpawn(i+1, func(th *vsThread) {
 			for {
 				vsYield("idle")
@@ -145,10 +158,22 @@ func (w *flWorld) project() []int {
 	out := make([]int, 0, 4+2*w.n)
 	out = append(out, int(*l.head)/w.stride(), int(*l.tail)/w.stride(), int(*l.size))
 	// the creator keeps its counter at header offset 20, a mapper at 24 (named deviation in Layout): project the sum
-	c := int(*(*int32)(unsafe.Pointer(&w.mem[20]))) + int(*(*int32)(unsafe.Pointer(&w.mem[24])))
+	lo := int(l.offsetInShm)
+	c := int(*(*int32)(unsafe.Pointer(&w.mem[lo+20]))) + int(*(*int32)(unsafe.Pointer(&w.mem[lo+24])))
 	out = append(out, c)
 	for s := 0; s < w.n; s++ {
-		out = append(out, int(*(*uint32)(unsafe.Pointer(&l.bufferRegion[s*w.stride()+nextBufferOffset])))/w.stride())
+		raw := int(*(*uint32)(unsafe.Pointer(&l.bufferRegion[s*w.stride()+nextBufferOffset])))
+		// free-list links are relative to the region, message links (bufferSlice.update) are offsets in the whole
+		// shared memory; the region start is not a multiple of the stride, so the value tells which one it is
+		ro := int(l.bufferRegionOffsetInShm)
+		switch {
+		case raw%w.stride() == 0:
+			out = append(out, raw/w.stride())
+		case raw >= ro && (raw-ro)%w.stride() == 0:
+			out = append(out, (raw-ro)/w.stride())
+		default:
+			out = append(out, -1)
+		}
 	}
 	for s := 0; s < w.n; s++ {
 		out = append(out, int(l.bufferRegion[s*w.stride()+bufferFlagOffset]))
@@ -181,10 +206,55 @@ func (w *flWorld) startPush(ft *flThread, slot int) bool {
 	delete(w.holder, slot)
 	delete(w.slices, slot)
 	delete(w.snap, slot)
+	delete(w.mlink, slot)
 	ft.lastKind = 2
 	ft.next = func() { ft.list.push(s) }
 	vsStep(ft.th)
 	return true
+}
+
+// startLink: the holder links buffer a to buffer b the way linkedBuffer.done() does (bufferSlice.update)
+func (w *flWorld) startLink(ft *flThread, a, b int) bool {
+	sa, sb := w.slices[a], w.slices[b]
+	if sa == nil || sb == nil || w.holder[a] != ft.th.id || w.holder[b] != ft.th.id {
+		return false
+	}
+	w.mlink[a] = b
+	ft.lastKind = 3
+	ft.next = func() {
+		sa.nextSlice = sb
+		sa.update()
+		sa.nextSlice = nil
+	}
+	vsStep(ft.th)
+	return true
+}
+
+// startChain: recycle a whole message chain starting at its head (bufferManager.recycleBuffers)
+func (w *flWorld) startChain(ft *flThread, a int) bool {
+	sa := w.slices[a]
+	if sa == nil || w.holder[a] != ft.th.id {
+		return false
+	}
+	for slot, tid := range w.holder {
+		if tid == ft.th.id {
+			w.checkHeld(slot, "before recycling the chain")
+		}
+	}
+	ft.lastKind = 4
+	ft.chain = true
+	ft.next = func() { ft.bm.recycleBuffers(sa) }
+	vsStep(ft.th)
+	return true
+}
+
+func (w *flWorld) hasPred(b int) bool {
+	for _, x := range w.mlink {
+		if x == b {
+			return true
+		}
+	}
+	return false
 }
 
 func (w *flWorld) checkHeld(slot int, when string) {
@@ -221,6 +291,30 @@ func (w *flWorld) afterStep(ft *flThread, executed, now string, headBefore int) 
 				}
 			}
 			ft.stale = false
+		}
+	}
+	// the holder may alter the headers of its own buffers (message links): refresh their snapshots after its steps
+	for slot, tid := range w.holder {
+		if tid == ft.th.id {
+			off := slot * w.stride()
+			hdr := w.views[0].bufferRegion[off : off+bufferHeaderSize]
+			if ft.chain && hdr[bufferFlagOffset]&sliceInUsedFlag == 0 {
+				// the chain walk has started to recycle this slot (reset() cleared its flags): no longer held
+				delete(w.holder, slot)
+				delete(w.slices, slot)
+				delete(w.snap, slot)
+				delete(w.mlink, slot)
+				continue
+			}
+			if ft.lastKind == 3 || ft.chain {
+				w.snap[slot] = append([]byte(nil), hdr...)
+			}
+		}
+	}
+	if now == "idle" {
+		ft.chain = false
+		if ft.lastKind == 3 || ft.lastKind == 4 {
+			ft.lastKind = 0
 		}
 	}
 	if now == "idle" && ft.lastKind == 1 {
@@ -302,6 +396,9 @@ func (w *flWorld) drain() bool {
 	}
 	for len(w.holder) > 0 {
 		for slot, tid := range w.holder {
+			if w.hasPred(slot) {
+				continue // recycle chains in reader order: heads first
+			}
 			ft := w.threads[tid-1]
 			w.startPush(ft, slot)
 			for ft.th.pos != "idle" {
@@ -390,6 +487,25 @@ func TestVS_FreeList(t *testing.T) {
 							res.DriftCount++
 							if len(res.Drift) < 5 {
 								res.Drift = append(res.Drift, fmt.Sprintf("%s step %d: thread %d does not hold slot %d", sc.Name, i, st[0], st[2]))
+							}
+						}
+						continue
+					}
+				}
+			case 3, 4:
+				if ft.th.pos == "idle" {
+					ok := false
+					if st[1] == 3 {
+						ok = w.startLink(ft, st[2], st[4])
+					} else {
+						ok = w.startChain(ft, st[2])
+					}
+					if !ok {
+						if !drift {
+							drift = true
+							res.DriftCount++
+							if len(res.Drift) < 5 {
+								res.Drift = append(res.Drift, fmt.Sprintf("%s step %d: thread %d cannot start op %d on slot %d", sc.Name, i, st[0], st[1], st[2]))
 							}
 						}
 						continue
@@ -515,7 +631,7 @@ func TestVS_FreeList(t *testing.T) {
 				break
 			}
 			ft := w.threads[best]
-			kind, arg := 0, 0
+			kind, arg, arg2 := 0, 0, 0
 			if ft.th.pos == "idle" {
 				opsLeft[best]--
 				var mine []int
@@ -524,17 +640,39 @@ func TestVS_FreeList(t *testing.T) {
 						mine = append(mine, s)
 					}
 				}
-				if len(mine) > 0 && rng.Intn(2) == 0 {
-					// deterministic choice among held slots
-					m := mine[0]
-					for _, s := range mine {
-						if s < m {
-							m = s
+				sortInts(mine)
+				// candidates (deterministic order): push of a head/single, link, chain, pop
+				var heads, chains []int
+				var links [][2]int
+				for _, a := range mine {
+					if !w.hasPred(a) {
+						heads = append(heads, a)
+						if _, ok := w.mlink[a]; ok {
+							chains = append(chains, a)
 						}
 					}
-					kind, arg = 2, m
-					w.startPush(ft, m)
-				} else {
+					if _, linked := w.mlink[a]; !linked {
+						for _, b := range mine {
+							_, bl := w.mlink[b]
+							if a != b && !bl && !w.hasPred(b) {
+								links = append(links, [2]int{a, b})
+							}
+						}
+					}
+				}
+				r := rng.Intn(10)
+				switch {
+				case r < 2 && len(links) > 0 && job.Random.Links:
+					l := links[rng.Intn(len(links))]
+					kind, arg, arg2 = 3, l[0], l[1]
+					w.startLink(ft, arg, arg2)
+				case r < 5 && len(chains) > 0:
+					kind, arg = 4, chains[rng.Intn(len(chains))]
+					w.startChain(ft, arg)
+				case r < 7 && len(heads) > 0:
+					kind, arg = 2, heads[rng.Intn(len(heads))]
+					w.startPush(ft, arg)
+				default:
 					kind = 1
 					w.startPop(ft)
 				}
@@ -544,10 +682,10 @@ func TestVS_FreeList(t *testing.T) {
 			}
 			ex, _ := w.step(ft)
 			res.RandomSteps++
-			steps = append(steps, []int{ft.th.id, kind, arg, -1})
+			steps = append(steps, []int{ft.th.id, kind, arg, -1, arg2})
 			fmt.Fprintf(&sig, "%d.", ft.th.id)
 			if logIt {
-				fmt.Fprintf(tf, "{\"ev\":\"step\",\"t\":%d,\"k\":%d,\"b\":%d,\"lbl\":%q,\"st\":%s}\n", ft.th.id, kind, arg, ex, flJSON(w.project()))
+				fmt.Fprintf(tf, "{\"ev\":\"step\",\"t\":%d,\"k\":%d,\"b\":%d,\"b2\":%d,\"lbl\":%q,\"st\":%s}\n", ft.th.id, kind, arg, arg2, ex, flJSON(w.project()))
 				res.TraceEvents++
 			}
 			if w.viol != nil || (w.knownABA && w.abaHit) {
@@ -588,6 +726,14 @@ func TestVS_FreeList(t *testing.T) {
 	// ---- 3. directed scenario: the retry bound of pop is hit (C02: a failed allocation consumes nothing)
 	if job.RetryExhaust && len(res.Violations) == 0 {
 		res.RetryExhaust = flRetryExhaust(res)
+	}
+}
+
+func sortInts(a []int) {
+	for i := 1; i < len(a); i++ {
+		for j := i; j > 0 && a[j] < a[j-1]; j-- {
+			a[j], a[j-1] = a[j-1], a[j]
+		}
 	}
 }
 
